@@ -26,7 +26,7 @@ var frozenMin = map[string]int{
 }
 
 func init() {
-	prop("C01", []string{"T-CONSTRUCTS", "T-KEYWORDS", "P-RENDERITEMS", "P-STMTRENDER", "P-GROUPRENDER", "P-TOKEN", "P-ISNULL", "T-LITFMT", "P-LITCTOR"},
+	prop("C01", []string{"T-CONSTRUCTS", "T-KEYWORDS", "P-RENDERITEMS", "P-STMTRENDER", "P-GROUPRENDER", "P-TOKEN", "P-ISNULL", "T-LITFMT", "P-LITCTOR", "P-IMPORTBLOCK", "P-FILERENDER-ORDER"},
 		"Necessary conditions of faithful rendering, on every path: (a) every construct of the generated API emits exactly the delimiter / separator / keyword tokens Go's grammar has for it (independent grammar table, go/scanner, go/token, types.Universe; X and XFunc twins identical); (b) the generic renderer writes open, items, separators, trailing newline, close in that order and treats every list position after the first identically — there is no edge around a separator or an item render other than {nil/null item, first item, empty separator, not multi}, so arity 4, 40 and 4,000 take the same paths; (c) keyword / identifier / package tokens write their text, `default` always gets its colon, a Block after Case / Default drops its braces exactly then; (d) literal tokens are produced only by Go-syntax formatters applied to the unmodified value (see C11 / C12).",
 		"that arbitrary compositions re-parse to the original tree (depends on go/format and go/parser over all programs); literal values (C11/C12)")
 	prop("C02", []string{"P-FORMAT-GATE", "P-ATOMIC-WRITE", "P-ERR-PROP", "W-PANICS", "T-TOKCONTENT", "P-NILGUARD", "P-BOUNDS", "W-NOFORMAT-READERS"},
